@@ -14,8 +14,6 @@ import re
 import typing as t
 
 from .. import astq
-from ..dataflow import ReachingDefs
-from ..guards import Aliases
 from ..loader import AnalysisError, ClassInfo, FuncInfo, dotted, norm, walk_no_nested
 from ..report import Ctx
 from ._c09_helpers import Ev, Lin, NFunc, Path, Sym, both, canon_atom, fold_access, implies_le, invariant_env, lin, mentions, normalise, symname
@@ -28,18 +26,20 @@ LEVEL_TEXT = (
     "the values at the start of the path): (R10.1) on every path to a growth of the multipart decoder's buffer the "
     "conditions guarantee len(buffer)+len(data) <= max_form_memory_size (or the limit is None), every path that takes a "
     "comparison against the limit on its exceeded side ends in RequestEntityTooLarge, nothing else grows the buffer; "
-    "(R10.2) every path of next_event that constructs a Field/File event moves the part counter by exactly one and "
+    "(R10.2) every path of the method(s) that build a Field/File event moves the part counter by exactly one and "
     "guarantees counter <= max_parts at the exit (or the limit is None), other paths do not move it; (R10.3) in "
     "MultiPartParser.parse every path from taking an event to handing its data on guarantees accumulated size + "
-    "len(event.data) <= max_form_memory_size (or the limit / the counter is None), the counter is kept at that sum, reset "
-    "per Field and disabled per File; (R10.4) unbounded reads of the urlencoded body are preceded by a bound, and "
+    "len(event.data) <= max_form_memory_size, or the limit is None, or a condition holds that every File round establishes "
+    "and every Field round refutes (a file part); the counter is kept at that sum and reset per Field; (R10.4) unbounded reads of the urlencoded body are preceded by a bound, and "
     "get_input_stream's decision table holds (shared with C09-R9.6); (R10.5) each of the three limits reaches the "
     "parameter of the same meaning of every constructor of the chain (by keyword or position, through aliases) and is "
-    "stored in the attribute the guards read; request-level defaults are the documented ones; (R10.6) every use of a "
-    "limit value or of an accumulating counter compared with one is a guard comparison whose exceeded side only raises "
-    "RequestEntityTooLarge, an is-None test, a forwarding edge, an alias / the counter's own update, or the limit of a "
-    "maximum-limited stream - non-interference, hence 'identical result when no guard fires'. Memory held inside the "
-    "stdlib is not modelled."
+    "stored in the attribute the guards read; request-level defaults are the documented ones; (R10.6) on every path of every "
+    "function of the chain (also started at each loop head with the loop's state left open) a configured limit reaches only: an "
+    "is-None test, an ordering comparison whose exceeded side ends in RequestEntityTooLarge, a parameter of the same meaning of "
+    "the next constructor (by keyword, position or keyword dictionary), the same-named attribute, or the limit of a "
+    "maximum-limited stream; it decides nothing by truth value or equality and is part of no other call argument, stored or "
+    "returned value (operators and transparent builtins pass the dependence on) - non-interference, hence 'identical result "
+    "when no guard fires'. Memory held inside the stdlib is not modelled."
 )
 TRUSTED = ["CPython ast", "bytearray.extend(data) grows the buffer by len(data)"]
 ASSUMPTIONS = [
@@ -65,11 +65,11 @@ def run(ctx: Ctx) -> None:
     repo = ctx.repo
     for rid, text in {
         "R10.1": "on every path to a growth of MultipartDecoder.buffer the conditions guarantee len(buffer) + len(data) <= max_form_memory_size (or the limit is None); a path on the exceeded side of a comparison with the limit raises RequestEntityTooLarge; nothing else grows the buffer",
-        "R10.2": "every path of next_event that constructs a Field/File event moves _parts_decoded by one and guarantees it is <= max_parts at the exit (or the limit is None)",
+        "R10.2": "every path of the method(s) that build a Field/File event moves the part counter by one and guarantees it is <= max_parts at the exit (or the limit is None); no other path moves it",
         "R10.3": "in MultiPartParser.parse every path that hands event.data on guarantees accumulated size + len(event.data) <= max_form_memory_size (or limit None / file part); the counter is reset at Field, None at File",
         "R10.4": "urlencoded body: an unbounded stream.read() is dominated by a size bound; get_input_stream decision table (declared length, streamed maximum)",
         "R10.5": "each limit reaches the same-named parameter of every constructor of the chain and is stored in the attribute the guards read; Request defaults 500000 / 1000 / None",
-        "R10.6": "every use of a limit value or size counter is a pure guard, a forwarding edge, a local alias used only so, the counter's update, or the limit of LimitedStream(is_max=True)",
+        "R10.6": "on every path a configured limit reaches only is-None tests, ordering comparisons whose exceeded side raises RequestEntityTooLarge, the same-meaning parameter / attribute of the next stage, or the limit of LimitedStream(is_max=True)",
     }.items():
         ctx.rule(rid, text)
 
@@ -200,6 +200,7 @@ def _r102(ctx: Ctx, dec: ClassInfo) -> None:
     # the methods in which a part event is built: next_event itself, or - when next_event dispatches through a table or by
     # name - the methods it reaches that way (they are entry points of their own: nothing calls them by a static name)
     roots = roots_of(repo, dec, want)
+    roots_absorbed = {name for name in dec.methods if name not in roots_of(repo, dec, _not_dunder)}  # helpers that live only inside their callers
     builders = {name: nf for name, nf in roots.items() if name != "__init__" and _constructs_part(nf.node)}
     if not builders:
         raise AnalysisError("MultipartDecoder: no method that constructs a Field / File event was found (slot)")
@@ -256,7 +257,9 @@ def _r102(ctx: Ctx, dec: ClassInfo) -> None:
     ctx.ob("R10.2", "a comparison with max_parts taken on its exceeded side raises RequestEntityTooLarge", bool(exceeded) and not bad_exc, "; ".join(p.describe()[:200] for p in bad_exc[:3]) or f"{len(exceeded)} exceeded path(s), each raises RequestEntityTooLarge", ne, ne.node, "parts test raises")
     writers = _attr_writers(dec, cattr)
     accounted = set(builders) | {h.name for nf in builders.values() for h in nf.inlined if h.cls is dec}
-    init_paths = [p for p in Sym(normalise(repo, dec.methods["__init__"], _not_dunder), repo=repo).paths() if p.outcome in ("return", "fall")] if "__init__" in dec.methods else []
+    init_nf = normalise(repo, dec.methods["__init__"], _not_dunder) if "__init__" in dec.methods else None
+    init_paths = [p for p in Sym(init_nf, repo=repo).paths() if p.outcome in ("return", "fall")] if init_nf is not None else []
+    accounted |= {h.name for h in (init_nf.inlined if init_nf is not None else []) if h.cls is dec and h.name in roots_absorbed}
     init_ok = bool(init_paths) and all(isinstance(p.env.get(COUNTER), ast.Constant) and p.env[COUNTER].value == 0 for p in init_paths)  # type: ignore[union-attr]
     others = sorted(set(writers) - accounted - {"__init__"})
     ctx.ob("R10.2", "_parts_decoded written only as 0 in __init__ and += 1 in next_event", init_ok and not others and not stray,
@@ -292,6 +295,9 @@ class _Subst(ast.NodeTransformer):
         if isinstance(n.value, ast.Name) and f"{n.value.id}.{n.attr}" in self.env:  # self.attr, or a field of a local record
             return ast.parse(ast.unparse(self.env[f"{n.value.id}.{n.attr}"]), mode="eval").body
         self.generic_visit(n)
+        d = dotted(n.value)  # the object the (substituted) base denotes may carry the field under its own name
+        if d and f"{d}.{n.attr}" in self.env:
+            return ast.parse(ast.unparse(self.env[f"{d}.{n.attr}"]), mode="eval").body
         return n
 
 
@@ -319,8 +325,9 @@ def _value_after(p: Path, term: str, selfname: str, module: t.Any) -> ast.AST | 
     return fold_access(_Subst(p.env, selfname).visit(e), module)
 
 
-def _atom_after(p: Path, key: str, selfname: str, module: t.Any = None) -> bool | None:
-    """truth value that condition `key` (over the state at the start of a round) has in the state path p leaves behind."""
+def _atom_after(p: Path, key: str, selfname: str, module: t.Any = None, assume: dict[str, bool] | None = None) -> bool | None:
+    """truth value that condition `key` (over the state at the start of a round) has in the state path p leaves behind
+    (`assume`: truth values of atoms taken for granted, e.g. that the limit is configured)."""
     e = _key_expr(key)
     if e is None:
         return None
@@ -328,6 +335,8 @@ def _atom_after(p: Path, key: str, selfname: str, module: t.Any = None) -> bool 
     if isinstance(c, bool):
         return c
     v = p.val(c[0])
+    if v is None and assume is not None:
+        v = assume.get(c[0])
     return None if v is None else (v == c[1])
 
 
@@ -424,6 +433,23 @@ def _r103(ctx: Ctx, mp: ClassInfo) -> None:
                 if tm not in (LIMIT, dlen) and not tm.startswith("len(") and "\u03a3" not in tm:
                     counters.add(tm)
 
+    # the same accounting kept as a count-down: a budget B that starts at the limit, `len(data) <= B` is the test, B -= len(data)
+    budgets: set[str] = set()
+    for p, evs in runs:
+        dlen = f"len({evs}.data)"
+        for k, v, _ in p.conds:
+            g = _LIN_OF_KEY.get(k) if k.startswith("GE0: ") else None
+            if g is None or LIMIT in g.terms or dlen not in g.terms or len(g.terms) != 2:
+                continue
+            (tm,) = [x for x in g.terms if x != dlen]
+            if g.terms[tm] == -g.terms[dlen] and not tm.startswith("len(") and "\u03a3" not in tm:
+                budgets.add(tm)
+    budgets -= counters
+    CONFIGURED = {f"{LIMIT} is None": False}
+
+    def guarded(conds: set, dlen: Lin) -> bool:
+        return any(implies_le(conds, Lin({c: 1}) + dlen, Lin({LIMIT: 1})) for c in counters) or any(implies_le(conds, dlen, Lin({b: 1})) for b in budgets)
+
     kinds: list[tuple[Path, str, str]] = []
     for p, evs in runs:
         poss = possible(p, evs)
@@ -442,10 +468,10 @@ def _r103(ctx: Ctx, mp: ClassInfo) -> None:
         if (k, v) not in skip_cache:
             ok = bool(filish) and bool(fieldish)
             for fp in filish:
-                if _atom_after(fp, k, sn, pa.module) is not v:
+                if _atom_after(fp, k, sn, pa.module, CONFIGURED) is not v:
                     ok = False
             for fp in fieldish:
-                if _atom_after(fp, k, sn, pa.module) is not (not v):
+                if _atom_after(fp, k, sn, pa.module, CONFIGURED) is not (not v):  # with a limit configured
                     ok = False
             skip_cache[(k, v)] = ok
         return skip_cache[(k, v)]
@@ -469,7 +495,7 @@ def _r103(ctx: Ctx, mp: ClassInfo) -> None:
             conds = p.cset(e.ncond)
             if _limit_skipped(conds, LIMIT):
                 ok, fact = True, "limit None"
-            elif any(implies_le(conds, Lin({c: 1}) + dlen, Lin({LIMIT: 1})) for c in counters):
+            elif guarded(conds, dlen):
                 ok, fact = True, "accumulated size + len(event.data) <= max_form_memory_size guaranteed"
             else:
                 skips = [(k, v) for k, v in sorted(conds) if state_atom(k, evs) and file_only(k, v)]
@@ -480,13 +506,39 @@ def _r103(ctx: Ctx, mp: ClassInfo) -> None:
                 else:
                     fact = f"no bound: neither the limit is None, nor a file part is known, nor accumulated size + len(event.data) <= max_form_memory_size (counter candidates {sorted(counters)}) on path {p.describe()[:240]}"
             writes.setdefault(id(e.raw), (e.raw, []))[1].append((ok, fact))
-        if exceed_conds(p, LIMIT):
+        over_budget = False
+        for k, v, _ in p.conds:
+            if k.startswith("GE0: "):
+                from ._c09_helpers import _known_ge0
+
+                for g in _known_ge0(k, v):
+                    if g.terms.get(f"len({data})", 0) > 0 and any(g.terms.get(b, 0) < 0 for b in budgets):
+                        over_budget = True
+        if exceed_conds(p, LIMIT) or over_budget:
             n_exc += 1
             if not raised_retl(p):
                 bad_exc.append(p.describe()[:200])
         if p.outcome == "raise":
             continue
         conds = p.cset()
+        for b in sorted(budgets):
+            cur = _value_after(p, b, sn, pa.module)
+            if cur is not None and norm(cur) == b:
+                cur = None
+            curl = lin(cur) if cur is not None else Lin({b: 1})
+            unchanged = cur is None
+            spent = curl is not None and curl.key() == (Lin({b: 1}) - dlen).key()
+            if implies_le(conds, dlen, Lin({b: 1})):
+                n_guarded += 1
+                if not spent:
+                    bad_keep.append(f"{p.describe()[:200]}: after the test `{b}` is `{norm(cur) if cur is not None else b}`, not what is left of the budget")
+            if any(p is q for q in fieldish):
+                if cur is None or norm(cur) != LIMIT:
+                    bad_field.append(f"at a Field event the budget `{b}` becomes `{norm(cur) if cur is not None else b}`, not the limit")
+            elif kind == "file":
+                pass
+            elif not (unchanged or spent):
+                bad_other.append(f"{p.describe()[:160]}: `{b}` becomes `{norm(cur)}`")
         for c in sorted(counters):
             cur = _value_after(p, c, sn, pa.module)
             if cur is not None and norm(cur) == c:
@@ -512,11 +564,11 @@ def _r103(ctx: Ctx, mp: ClassInfo) -> None:
     for sid, (raw, facts) in writes.items():
         ok = all(f[0] for f in facts)
         ctx.ob("R10.3", "the write of field data is bounded by the accumulated field size", ok, f"`{norm(raw)}` on {len(facts)} path(s): " + "; ".join(sorted({f[1] for f in facts if not f[0]})[:2] or sorted({f[1] for f in facts})), pa, raw, f"field write {norm(raw)}")
-    if counters and (not fieldish or not filish):
+    if (counters or budgets) and (not fieldish or not filish):
         raise AnalysisError("MultiPartParser.parse: the rounds that handle a Field / a File event were not recognised (slot)")
-    ctx.ob("R10.3", "field_size is reset to 0 at every Field and disabled (None) at every File", bool(counters) and not bad_field and bool(used_skips),
-           "; ".join(sorted(set(bad_field))[:3]) or (f"counter {sorted(counters)}: 0 on {len(fieldish)} Field path(s); {len(filish)} File path(s) establish {sorted(used_skips)}, under which alone the size test is skipped" if used_skips else f"counter {sorted(counters)}: no condition set by File events (and cleared by Field events) under which the size test is skipped"), pa, pa.node, "field_size resets")
-    ctx.ob("R10.3", "field_size changes only by reset or by the accumulated length of event.data", bool(counters) and not bad_keep and not bad_other and n_guarded >= 1, "; ".join(sorted(set(bad_keep + bad_other))[:3]) or f"{n_guarded} guarded path(s) keep the counter at the accumulated size; no other change", pa, pa.node, "field_size writers")
+    ctx.ob("R10.3", "field_size is reset to 0 at every Field and disabled (None) at every File", bool(counters or budgets) and not bad_field and bool(used_skips),
+           "; ".join(sorted(set(bad_field))[:3]) or (f"counter {sorted(counters)} / budget {sorted(budgets)}: reset on {len(fieldish)} Field path(s); {len(filish)} File path(s) establish {sorted(used_skips)}, under which alone the size test is skipped" if used_skips else f"counter {sorted(counters)}: no condition set by File events (and cleared by Field events) under which the size test is skipped"), pa, pa.node, "field_size resets")
+    ctx.ob("R10.3", "field_size changes only by reset or by the accumulated length of event.data", bool(counters or budgets) and not bad_keep and not bad_other and n_guarded >= 1, "; ".join(sorted(set(bad_keep + bad_other))[:3]) or f"{n_guarded} guarded path(s) keep the counter at the accumulated size; no other change", pa, pa.node, "field_size writers")
     ctx.ob("R10.3", "a comparison with max_form_memory_size taken on its exceeded side raises RequestEntityTooLarge", n_exc >= 1 and not bad_exc, "; ".join(bad_exc[:3]) or f"{n_exc} exceeded path(s), each raises RequestEntityTooLarge", pa, pa.node, "field size test raises")
 
 
@@ -564,8 +616,14 @@ def _r104(ctx: Ctx, fp: ClassInfo) -> None:
                 if any(implies_le(conds, Lin({tm: 1}), Lin({LIMIT: 1})) for tm in (CLEN,)):
                     continue
                 byp.append(p)
-        fact = "every path to stream.read() with a limit configured passes the size comparison" if not byp else "stream.read() is reachable with a limit configured and no bound applied: " + byp[0].describe()[:240]
-        ctx.ob("R10.4", "unbounded stream.read() of the urlencoded body is dominated by a bound whenever a limit is configured", not byp, fact, pu, raw, "urlencoded unbounded read when content_length is None")
+        # two obligations: with a declared length the bound must hold (a loosened test lands here); without one it cannot
+        # (today's tree: the known finding) - kept apart so that the known finding does not hide a regression of the first
+        undeclared = [p for p in byp if p.val(f"{CLEN} is None") is True]
+        declared_byp = [p for p in byp if p.val(f"{CLEN} is None") is not True]
+        ctx.ob("R10.4", "with a declared length, the unbounded stream.read() is reached only when that length is within max_form_memory_size", not declared_byp,
+               "every path to stream.read() that knows the declared length has it bounded by the limit" if not declared_byp else "stream.read() is reachable with a declared length that is not bounded by the limit: " + declared_byp[0].describe()[:240], pu, raw, "urlencoded unbounded read with a declared length")
+        fact = "every path to stream.read() with a limit configured passes the size comparison" if not undeclared else "stream.read() is reachable with a limit configured and no bound applied: " + undeclared[0].describe()[:240]
+        ctx.ob("R10.4", "unbounded stream.read() of the urlencoded body is dominated by a bound whenever a limit is configured", not undeclared, fact, pu, raw, "urlencoded unbounded read when content_length is None")
 
 
 # ---------------------------------------------------------------------
@@ -597,7 +655,11 @@ def _r105(ctx: Ctx) -> None:
                     b = bind_call(e.call, sig, bound=sig.name == "__init__")
                     if b is None:
                         raise AnalysisError(f"{fq}: the arguments of `{norm(e.call)[:80]}` cannot be matched with the parameters of {callee} (slot)")
-                    found.setdefault(id(e.raw), []).append({k: (norm(v) if v is not None else None) for k, v in (b or {}).items()} if b is not None else {"?": None})
+                    got_ = {k: (norm(v) if v is not None else None) for k, v in b.items()}
+                    for k, v in kws.items():
+                        if got_.get(k) in (None, "None") and p.val(f"{v} is None") is True:
+                            got_[k] = v  # this call is made only when the limit is None: leaving it out passes None
+                    found.setdefault(id(e.raw), []).append(got_)
                     raws[id(e.raw)] = e.raw
         if not found:
             ctx.ob("R10.5", f"{fq} calls {callee}", False, "0 call(s) found", fi, fi.node, f"{fq} -> {callee}")
@@ -674,7 +736,7 @@ def _r106(ctx: Ctx, dec: ClassInfo, fp: ClassInfo, mp: ClassInfo) -> None:
     nuse = 0
     for nf in scope:
         fi = nf.orig
-        if not any(_is_limit_term(x) for x in ast.walk(nf.node)):
+        if not any(_is_limit_term(x) or (isinstance(x, ast.Constant) and x.value in LIMIT_ATTRS) for x in ast.walk(nf.node)):
             continue
         sym = Sym(nf, repo=repo)
         paths = sym.paths(max_paths=20000)
@@ -731,7 +793,7 @@ def _r106(ctx: Ctx, dec: ClassInfo, fp: ClassInfo, mp: ClassInfo) -> None:
                         if last.endswith("LimitedStream"):
                             is_lim = (kwname == "limit") or (kwname is None and i == 1)
                             ism = astq.arg_or_kw(call, 2, "is_max")
-                            ok = is_lim and _is_limit_term(v_) and isinstance(ism, ast.Constant) and ism.value is True
+                            ok = is_lim and _is_limit_term(v_) and p.truth(ism) is True
                             note(e.raw, f"`{norm(v_)}`", ok, "the limit of a maximum-limited stream" if ok else f"NOT a pure guard: passed to `{norm(call)[:70]}`")
                         elif pname in LIMIT_ATTRS and _is_limit_term(v_):
                             note(e.raw, f"`{norm(v_)}`", True, "a forwarding edge")
@@ -740,7 +802,9 @@ def _r106(ctx: Ctx, dec: ClassInfo, fp: ClassInfo, mp: ClassInfo) -> None:
                 elif e.kind in ("store", "aug") and hasattr(e.call, "value") and _has_limit(e.call.value):
                     tg = e.call.targets[0] if isinstance(e.call, ast.Assign) else e.call.target  # type: ignore[union-attr]
                     rec = isinstance(tg, ast.Attribute) and isinstance(e.raw, (ast.Assign, ast.AnnAssign, ast.AugAssign)) and isinstance(tg.value, (ast.Name, ast.Call)) and e.kind == "store" and _is_limit_term(e.call.value)
-                    note(e.raw, f"`{norm(e.call.value)}`", bool(rec), "kept in a record of the function (read back only by guards)" if rec else f"NOT a pure guard: stored by `{norm(e.raw)[:70]}`")
+                    # options["max_x"] = limit on a local dict of keyword arguments: judged where the dict is passed on
+                    kwd = isinstance(tg, ast.Subscript) and isinstance(tg.slice, ast.Constant) and tg.slice.value in LIMIT_ATTRS and isinstance(tg.value, ast.Dict) and e.kind == "store" and _is_limit_term(e.call.value)
+                    note(e.raw, f"`{norm(e.call.value)}`", bool(rec or kwd), ("kept in a record of the function (read back only by guards)" if rec else "an entry of a keyword dictionary (a forwarding edge when it is passed on)") if (rec or kwd) else f"NOT a pure guard: stored by `{norm(e.raw)[:70]}`")
             if p.outcome in ("return", "fall"):
                 for key, v_ in p.env.items():
                     if "." in key and key.split(".", 1)[0] == (nf.selfname or "self") and _has_limit(v_):
